@@ -184,4 +184,58 @@ def run(ck):
         outs = analyse(repo, f, make_config({}))
         sel = [o for o in outs if all(not d for c, d in o.trace)]
         ck.ob("J3", name, "an unknown vapour-pressure equation type is rejected", f.loc(), bool(sel) and all(o.kind == "raise" for o in sel))
+    # J4: a rejection is not swallowed on its way out: no handler catches an exception class that a repository function called in
+    # its try block raises explicitly, unless the handler raises itself
+    import ast as _ast
+    byname = {}
+    for g in repo.all_functions():
+        byname.setdefault(g.name, []).append(g)
+    _mr = {}
+
+    def may_raise(g, depth=0):
+        k = g.module.name + ":" + g.qualname
+        if k in _mr:
+            return _mr[k]
+        _mr[k] = set()
+        out = set()
+        for n in _ast.walk(g.node):
+            if isinstance(n, _ast.Raise) and n.exc is not None:
+                e = n.exc.func if isinstance(n.exc, _ast.Call) else n.exc
+                out.add(_ast.unparse(e).split(".")[-1])
+            elif isinstance(n, _ast.Call) and depth < 2:
+                nm = n.func.attr if isinstance(n.func, _ast.Attribute) else (n.func.id if isinstance(n.func, _ast.Name) else None)
+                for h in byname.get(nm, [])[:3]:
+                    if h is not g:
+                        out |= may_raise(h, depth + 1)
+        _mr[k] = out
+        return out
+    n_try = 0
+    for g in repo.all_functions():
+        for t in _ast.walk(g.node):
+            if not isinstance(t, _ast.Try):
+                continue
+            n_try += 1
+            raised = set()
+            for stx in t.body:
+                for n in _ast.walk(stx):
+                    if isinstance(n, _ast.Call):
+                        nm = n.func.attr if isinstance(n.func, _ast.Attribute) else (n.func.id if isinstance(n.func, _ast.Name) else None)
+                        for h in byname.get(nm, [])[:3]:
+                            raised |= may_raise(h)
+            for h in t.handlers:
+                if h.type is None:
+                    names = {"*"}
+                elif isinstance(h.type, _ast.Tuple):
+                    names = {_ast.unparse(x).split(".")[-1] for x in h.type.elts}
+                else:
+                    names = {_ast.unparse(h.type).split(".")[-1]}
+                if not names:
+                    continue    # `except ():` catches nothing
+                reraises = any(isinstance(x, _ast.Raise) for stx in h.body for x in _ast.walk(stx))
+                hit = (names & raised) or (raised if names & {"*", "Exception", "BaseException"} else set())
+                ck.ob("J4", g.qualname, "a rejection raised inside this try block is not swallowed by `except %s`" % ", ".join(sorted(names)),
+                      g.loc(h), reraises or not hit,
+                      "the handler catches %s, which a function called in the try block raises to reject its input, and goes on without raising"
+                      % ", ".join(sorted(hit)))
+    ck.extra["try_statements"] = n_try
     ck.exhaustive = True
